@@ -217,9 +217,9 @@ package keeper
 //@   uses depWFSetDeployment, depWFSetGroup
 //@   ensures [wf] depWF(old(KVhas)[k.skey], old(KVval)[k.skey]) ==> depWF(KVhas[k.skey], KVval[k.skey])
 //@   ensures [missing] !old(KVhas)[k.skey][groupKeyOf(id)] ==> result != nil && KVhas == old(KVhas) && KVval == old(KVval) && EvN == old(EvN)
-//@   ensures [paused] old(KVhas)[k.skey][groupKeyOf(id)] && grpOf(old(KVval)[k.skey], id).GroupID == id ==> result == nil && KVhas == old(KVhas)
+//@   ensures [paused] old(KVhas)[k.skey][groupKeyOf(id)] && groupKeyOf(grpOf(old(KVval)[k.skey], id).GroupID) == groupKeyOf(id) ==> result == nil && KVhas == old(KVhas)
 //@                && KVval == old(KVval)[k.skey := old(KVval)[k.skey][groupKeyOf(id) := encode(upd(grpOf(old(KVval)[k.skey], id), State, types.GroupPaused))]]
-//@                && EvN == old(EvN) + 1 && EvLog == old(EvLog)[old(EvN) := sigGroup(2, id)]
+//@                && EvN == old(EvN) + 1 && EvLog == old(EvLog)[old(EvN) := sigGroup(2, grpOf(old(KVval)[k.skey], id).GroupID)]
 //@ func (Keeper).OnLeaseClosed
 //@   ensures (result1 == nil) <==> KVhas[k.skey][groupKeyOf(id)]
 //@   ensures result1 == nil ==> result0 == grpOf(KVval[k.skey], id)
